@@ -70,12 +70,45 @@ Definition normpath (p : str) : str :=
       end
   end.
 
+(* ---- what the kernel does with a path: symbolic links -------------------------------------------------
+   `links` maps the PHYSICAL absolute path of every symbolic link (to a directory) of the fixture to its
+   os.path.realpath. kresolve walks an absolute path the way the kernel (and os.path.realpath) does: component
+   by component over the physical path so far, ".." leaving the physical parent, a component that is a symbolic
+   link replaced by where it points. It is what open()/os.access() see, and what os.getcwd() answers after
+   os.chdir(p). posixpath.normpath/abspath, in contrast, cancels "x/.." lexically — the two differ exactly when
+   ".." follows a symbolic link. *)
+Fixpoint assoc_str (k : str) (l : list (str * str)) : option str :=
+  match l with
+  | [] => None
+  | (a, b) :: l' => if str_eqb k a then Some b else assoc_str k l'
+  end.
+
+Definition abs_of_stack (stk : list str) : str := slash :: join_comps (rev stk).   (* stk: components, reversed *)
+
+Fixpoint kwalk (links : list (str * str)) (stk : list str) (comps : list str) : list str :=
+  match comps with
+  | [] => stk
+  | c :: rest =>
+      if str_eqb c [] || str_eqb c dot then kwalk links stk rest
+      else if str_eqb c dotdot then kwalk links (match stk with _ :: s' => s' | [] => [] end) rest
+      else match assoc_str (abs_of_stack (c :: stk)) links with
+           | Some target => kwalk links (rev (filter (fun x => negb (str_eqb x [])) (split_slash target []))) rest
+           | None => kwalk links (c :: stk) rest
+           end
+  end.
+
+Definition kresolve (links : list (str * str)) (p : str) : str :=
+  abs_of_stack (kwalk links [] (split_slash p [])).
+
 (* ---- state, results, the tree of config files ---------------------------------------------------- *)
 Record st := { cwd : str; cpd : option str }.   (* os.getcwd(), current_path_dir.get() *)
 
-Inductive res (A : Type) := Ok (a : A) | Err.
+(* Err: the value is rejected (TypeError / ValueError / ArgumentError: handled and re-raised by the parser);
+   ErrOs: an OSError (FileNotFoundError from os.chdir) — no handler on the way catches it *)
+Inductive res (A : Type) := Ok (a : A) | Err | ErrOs.
 Arguments Ok {A} a.
 Arguments Err {A}.
+Arguments ErrOs {A}.
 
 (* one resolved path value: (id, relative as written, cwd it was resolved against, absolute) *)
 Definition item : Type := nat * str * str * str.
@@ -90,42 +123,61 @@ Inductive node :=
 | NBad.                                     (* a value that fails validation for an unrelated reason *)
 
 Section Run.
-  Variable fxs : fixes.        (* which repairs have landed (only fx_lf matters here); no_fixes = the pinned tree *)
-  Variable files : list str.   (* normalised absolute paths of the readable regular files *)
+  Variable fxs : fixes.        (* which repairs have landed (fx_lf and fx_rp matter here); no_fixes = the pinned tree *)
+  Variable files : list str.   (* physical absolute paths of the readable regular files *)
+  Variable links : list (str * str).   (* physical path of each symbolic link -> its realpath *)
+  Variable dir_ok : str -> bool.       (* os.chdir(d) succeeds for the physical path d (external behaviour) *)
 
-  (* Path(given, mode="fr") in the current state: cwd = os.getcwd() *)
+  (* Path(given, mode="fr") in the current state: cwd = os.getcwd(); os.access resolves the path as the kernel does *)
   Definition open_fr (s : st) (given : str) : res (str * str) :=   (* (cwd, absolute) *)
     let a := join (cwd s) given in
-    if mem_str (normpath a) files then Ok (cwd s, a) else Err.
+    if mem_str (kresolve links a) files then Ok (cwd s, a) else Err.
+
+  (* the directory the process is in after `path_dir = os.path.abspath(path_dir); os.chdir(path_dir)` with
+     path_dir = os.path.dirname(a): abspath normalises LEXICALLY first, the kernel then resolves the symbolic links
+     of what is left; os.getcwd() answers the physical path. Repaired (fx_rp): os.path.realpath(path_dir). *)
+  Definition chdir_dir (a : str) : str :=
+    kresolve links (if fx_rp fxs then dirname a else normpath (dirname a)).
 
   Definition nonempty (p : str) : bool := match p with [] => false | _ => true end.
 
   (* `with change_to_path_dir(path): body` — path = None | Some (absolute of a Path whose mode has
-     no "d"). The `try ... finally` is the last three lines: they run whatever body returned. *)
+     no "d"). The `try ... finally` covers the body only: os.chdir into the new directory comes BEFORE the `try:`,
+     after current_path_dir.set — when it raises nothing is undone. *)
   Definition bracket {A} (path : option str) (body : st -> st * res A) (s : st) : st * res A :=
     let path_dir0 := cpd s in                                     (* current_path_dir.get() *)
-    let '(path_dir, chdir) :=
+    let path_dir :=
       match path with
-      | None => (path_dir0, false)
-      | Some a => (Some (dirname a), true)
+      | None => path_dir0
+      | Some a => Some (dirname a)
       end in
     let token := cpd s in
     let s1 := {| cwd := cwd s; cpd := path_dir |} in              (* current_path_dir.set(path_dir) *)
-    let '(s2, saved) :=
-      match path_dir with
-      | Some d => if chdir && nonempty d
-                  then ({| cwd := normpath d; cpd := cpd s1 |}, Some (cwd s1))   (* os.chdir(abspath) *)
-                  else (s1, None)
-      | None => (s1, None)
+    let enter :=                                                  (* `if chdir and path_dir:` *)
+      match path, path_dir with
+      | Some a, Some d => if nonempty d then Some (chdir_dir a) else None
+      | _, _ => None
       end in
-    let '(s3, r) := body s2 in
-    (* finally: *)
-    let s4 := {| cwd := cwd s3; cpd := token |} in                (* current_path_dir.reset(token) *)
-    let s5 := match saved with
-              | Some c => {| cwd := c; cpd := cpd s4 |}           (* os.chdir(chdir) *)
-              | None => s4
-              end in
-    (s5, r).
+    match enter with
+    | Some target =>
+        let saved := cwd s1 in                                    (* chdir = os.getcwd() *)
+        if dir_ok target then                                     (* os.chdir(os.path.abspath(path_dir)) *)
+          let '(s3, r) := body {| cwd := target; cpd := cpd s1 |} in
+          (* finally: current_path_dir.reset(token); os.chdir(chdir) *)
+          ({| cwd := saved; cpd := token |}, r)
+        else (s1, ErrOs)                                          (* FileNotFoundError; the context variable stays set *)
+    | None =>
+        let '(s3, r) := body s1 in
+        ({| cwd := cwd s3; cpd := token |}, r)                    (* finally: current_path_dir.reset(token) *)
+    end.
+
+  (* a step whose ordinary failures are handled by the caller (which then goes on), while an OSError passes through *)
+  Definition then_ {A B} (x : st * res A) (k : st -> st * res B) : st * res B :=
+    let '(s1, r) := x in
+    match r with
+    | ErrOs => (s1, ErrOs)
+    | _ => k s1
+    end.
 
   Definition seq_nodes (run : node -> st -> st * res (list item)) :=
     fix go (l : list node) (s : st) : st * res (list item) :=
@@ -135,9 +187,10 @@ Section Run.
           let '(s1, r) := run n s in
           match r with
           | Err => (s1, Err)                       (* the exception leaves the loop *)
+          | ErrOs => (s1, ErrOs)
           | Ok xs =>
               let '(s2, r2) := go l' s1 in
-              (s2, match r2 with Ok ys => Ok (xs ++ ys) | Err => Err end)
+              (s2, match r2 with Ok ys => Ok (xs ++ ys) | Err => Err | ErrOs => ErrOs end)
           end
       end.
 
@@ -150,9 +203,10 @@ Section Run.
           let '(s1, r) := bracket (Some a) (run n) s in
           match r with
           | Err => (s1, Err)
+          | ErrOs => (s1, ErrOs)
           | Ok xs =>
               let '(s2, r2) := go l' s1 in
-              (s2, match r2 with Ok ys => Ok (xs ++ ys) | Err => Err end)
+              (s2, match r2 with Ok ys => Ok (xs ++ ys) | Err => Err | ErrOs => ErrOs end)
           end
       end.
 
@@ -164,48 +218,48 @@ Section Run.
           (s', match open_fr s' given with
                | Ok (c, a) => Ok [(id, given, c, a)]
                | Err => Err
+               | ErrOs => ErrOs
                end)) s
     | NLoad given body =>
         (* parse_value_or_config: Path(value, "fr"); a missing file leaves the string, which is then
            not a dict -> TypeError *)
         match open_fr s given with
         | Err => (s, Err)
+        | ErrOs => (s, ErrOs)
         | Ok (_, a) =>
             (* `with cfg_path.relative_path_context(): load_value(...)` *)
-            let '(s1, _) := bracket (Some a) (fun s' => (s', Ok tt)) s in
+            then_ (bracket (Some a) (fun s' => (s', Ok tt)) s) (fun s1 =>
             (* `with change_to_path_dir(cfg_path): parser._apply_actions(cfg, ...)` *)
-            bracket (Some a) (seq_nodes run_node body) s1
+            bracket (Some a) (seq_nodes run_node body) s1)
         end
     | NListFile yaml_ok given body =>
         (* _check_type with enable_path: parse_value_or_config takes the list file for a config file
            (Path(value, "fr") against the cwd) and loads it as YAML, which gives one folded string; *)
         match open_fr s given with
         | Err => (s, Err)        (* no such file: the string is not a list -> ValueError, twice *)
+        | ErrOs => (s, ErrOs)
         | Ok (_, a) =>
+            let fallback := fun s' =>
+              match open_fr s' given with
+              | Err => (s', Err)
+              | ErrOs => (s', ErrOs)
+              | Ok (_, a2) => each_in_bracket run_node a2 body s'
+              end in
             if yaml_ok then
-              let '(s1, _) := bracket (Some a) (fun s' => (s', Ok tt)) s in
+              then_ (bracket (Some a) (fun s' => (s', Ok tt)) s) (fun s1 =>
               (* `with change_to_path_dir(config_path): adapt_typehints(val, ...)`: a string, not a list *)
-              let '(s2, _) := bracket (Some a) (fun s' => (s', @Err unit)) s1 in
+              then_ (bracket (Some a) (fun s' => (s', @Err unit)) s1) (fun s2 =>
               (* except ValueError: `with change_to_path_dir(config_path): adapt_typehints(orig_val, ...)`:
                  the ORIGINAL spelling is looked up again — now from inside the list file's directory —
                  and every line is adapted inside `with change_to_path_dir(list_path)`.
                  Repaired (fx_lf): the fallback runs without `with change_to_path_dir(config_path)`. *)
-              let fallback := fun s' =>
-                match open_fr s' given with
-                | Err => (s', Err)
-                | Ok (_, a2) => each_in_bracket run_node a2 body s'
-                end in
-              if fx_lf fxs then fallback s2 else bracket (Some a) fallback s2
+              if fx_lf fxs then fallback s2 else bracket (Some a) fallback s2))
             else
               (* the loader raises inside `with cfg_path.relative_path_context()`: config_path = None and the
                  value stays the spelling; `with change_to_path_dir(None): adapt_typehints(val, ...)` then
                  reads the list file (Path(val, "fr") against the cwd) and adapts every line in its directory *)
-              let '(s1, _) := bracket (Some a) (fun s' => (s', @Err unit)) s in
-              bracket None (fun s' =>
-                match open_fr s' given with
-                | Err => (s', Err)
-                | Ok (_, a2) => each_in_bracket run_node a2 body s'
-                end) s1
+              then_ (bracket (Some a) (fun s' => (s', @Err unit)) s) (fun s1 =>
+              bracket None fallback s1)
         end
     | NInline body => bracket None (seq_nodes run_node body) s
     | NBad => (s, Err)
@@ -216,6 +270,7 @@ Section Run.
   Definition run_top (s : st) (top : str) (body : list node) : st * res (list item) :=
     match open_fr s top with
     | Err => (s, Err)
+    | ErrOs => (s, ErrOs)
     | Ok (_, a) => bracket (Some a) (seq_nodes run_node body) s
     end.
 End Run.
